@@ -279,6 +279,10 @@ def random_network(rng, quick=True, force=None):
             "hw_approx": hw_approx, "features": feat}
     if any(l["type"] == "valve" for l in links) and rng.random() < 0.5:
         add_setting_controls(rng, spec, p=0.7)
+    if rng.random() < 0.35:
+        add_name_collisions(rng, spec)
+    if rng.random() < 0.3:
+        add_pattern_inplace(rng, spec)
     return spec
 
 
@@ -302,8 +306,16 @@ def build_wn(wntr, spec):
         wn.options.hydraulic.unbalanced = o["unbalanced"]
     for pn, mults in spec["patterns"].items():
         wn.add_pattern(pn, list(mults))
+    for e in spec.get("pattern_inplace", []):   # element-wise edits through the array `Pattern.multipliers` returns
+        apply_pattern_inplace(wn.get_pattern(e["name"]).multipliers, e)
     for cn, pts in spec["curves"].items():
         wn.add_curve(cn, "HEAD", [tuple(p) for p in pts])
+    for nm in spec.get("extra_patterns", []):    # names colliding with link / node names
+        if nm not in spec["patterns"]:
+            wn.add_pattern(nm, [1.0, 2.0])
+    for nm in spec.get("extra_curves", []):
+        if nm not in spec["curves"]:
+            wn.add_curve(nm, "HEAD", [(0.01, 10.0)])
     for nd in spec["nodes"]:
         if nd["type"] == "junction":
             dem = nd.get("demands", [])
@@ -347,6 +359,8 @@ def build_wn(wntr, spec):
         lk = nd.get("leak")
         if lk:
             wn.get_node(nd["name"]).add_leak(wn, area=lk["area"], discharge_coeff=lk["cd"], start_time=lk["start"], end_time=lk["end"])
+    for sc in spec.get("sources", []):   # water-quality sources (ignored by the hydraulics), possibly NAMED LIKE A LINK at the same node
+        wn.add_source(sc["name"], sc["node"], "CONCEN", 1.0)
     # time controls / rules that change a valve's SETTING during the run (TCV loss coefficient, PRV / PSV pressure, FCV flow)
     if spec.get("controls"):
         import wntr.network.controls as CT
@@ -408,6 +422,57 @@ def add_setting_controls(rng, spec, p=1.0):
     return spec
 
 
+def apply_pattern_inplace(arr, e):
+    """the same element-wise operation on a numpy array (the real pattern) or a list (the spec)"""
+    if "scale" in e:
+        if isinstance(arr, list):
+            arr[:] = [m * e["scale"] for m in arr]
+        else:
+            arr *= e["scale"]
+    else:
+        arr[e["index"] % len(arr)] = e["value"]
+
+
+def effective_patterns(spec):
+    """pattern multipliers after the spec's in-place element edits"""
+    pats = {k: list(v) for k, v in spec["patterns"].items()}
+    for e in spec.get("pattern_inplace", []):
+        apply_pattern_inplace(pats[e["name"]], e)
+    return pats
+
+
+def add_name_collisions(rng, spec):
+    """names colliding ACROSS element kinds: sources named like a link that touches their node (and like the node itself), unused patterns
+    named like links, unused curves named like nodes"""
+    links = effective_links(spec)
+    srcs = []
+    for l in rng.sample(links, min(len(links), rng.randint(1, 3))):
+        node = rng.choice([l["start"], l["end"]])
+        if not any(s["name"] == l["name"] for s in srcs):
+            srcs.append({"name": l["name"], "node": node})
+    nd = rng.choice(spec["nodes"])["name"]
+    if not any(s["name"] == nd for s in srcs):
+        srcs.append({"name": nd, "node": nd})
+    spec["sources"] = srcs
+    spec["extra_patterns"] = [rng.choice(links)["name"], rng.choice(spec["nodes"])["name"]]
+    spec["extra_curves"] = [rng.choice(spec["nodes"])["name"], rng.choice(links)["name"]]
+    spec.setdefault("features", {})["name_collisions"] = True
+    return spec
+
+
+def add_pattern_inplace(rng, spec):
+    """element-wise edits of pattern multipliers BEFORE the first run"""
+    eds = spec.setdefault("pattern_inplace", [])
+    for pn in sorted(spec["patterns"]):
+        if len(spec["patterns"][pn]) >= 1 and rng.random() < 0.7:
+            if rng.random() < 0.5:
+                eds.append({"name": pn, "index": rng.randrange(len(spec["patterns"][pn])), "value": _r(rng, 0.3, 2.6, 3)})
+            else:
+                eds.append({"name": pn, "scale": rng.choice([1.5, 0.5, 1.25])})
+    spec.setdefault("features", {})["pattern_inplace"] = bool(eds)
+    return spec
+
+
 def apply_second_edits(wntr, wn, spec):
     """edit the DEFINITION of an already simulated network through public setters (spec['second']['edits']) and return the spec that
     describes the network as it is THEN (what the oracles of the second run must use)"""
@@ -434,6 +499,10 @@ def apply_second_edits(wntr, wn, spec):
         elif op == "pattern":
             wn.get_pattern(e["name"]).multipliers = list(e["mults"])
             sp["patterns"][e["name"]] = list(e["mults"])
+            sp["pattern_inplace"] = [x for x in sp.get("pattern_inplace", []) if x["name"] != e["name"]]
+        elif op == "pattern_inplace":
+            apply_pattern_inplace(wn.get_pattern(e["name"]).multipliers, e)
+            sp.setdefault("pattern_inplace", []).append({k: v for k, v in e.items() if k != "op"})
         elif op == "base_demand":
             wn.get_node(e["node"]).demand_timeseries_list[e["index"]].base_value = e["value"]
             nodes[e["node"]]["demands"][e["index"]]["base"] = e["value"]
@@ -481,9 +550,15 @@ def add_second_run(rng, spec):
         l = rng.choice(valves)
         new = round(l["setting"] * (5.0 if l["valve_type"] == "TCV" else 0.8), 6)
         edits.append({"op": "valve_initial_setting", "link": l["name"], "value": new})
-    if spec["patterns"] and rng.random() < 0.7:
+    if spec["patterns"] and rng.random() < 0.8:
         pn = rng.choice(sorted(spec["patterns"]))
-        edits.append({"op": "pattern", "name": pn, "mults": [round(abs(m) * rng.uniform(0.5, 1.5) + 0.05, 3) for m in spec["patterns"][pn]]})
+        r = rng.random()
+        if r < 0.4:
+            edits.append({"op": "pattern", "name": pn, "mults": [round(abs(m) * rng.uniform(0.5, 1.5) + 0.05, 3) for m in spec["patterns"][pn]]})
+        elif r < 0.7:
+            edits.append({"op": "pattern_inplace", "name": pn, "index": rng.randrange(len(spec["patterns"][pn])), "value": _r(rng, 0.3, 2.6, 3)})
+        else:
+            edits.append({"op": "pattern_inplace", "name": pn, "scale": rng.choice([1.5, 0.6])})
     js = [n for n in spec["nodes"] if n["type"] == "junction" and n.get("demands")]
     if js and rng.random() < 0.7:
         n = rng.choice(js)
@@ -558,7 +633,7 @@ def spec_signature(spec):
 
 # ----------------------------------------------------------------------------- directed scenarios
 
-SCENARIOS = ["psv", "prv", "fcv", "tcv", "pump_shutoff", "cv_reverse", "power_pump", "pump_curves", "cv_htol", "pump_points", "tank_tank", "cutset", "cv_cascade"]
+SCENARIOS = ["psv", "prv", "fcv", "tcv", "pump_shutoff", "cv_reverse", "power_pump", "pump_curves", "cv_htol", "pump_points", "tank_tank", "cutset", "cv_cascade", "tank_limit"]
 
 
 def _opts(rng, **kw):
@@ -713,6 +788,18 @@ def scenario_network(rng, name, variant=0):
                 links.append(_pipe("S%d" % i, "J%d" % i, "R1", L=_r(rng, 200, 500, 0), d=0.15))
             prev = "J%d" % i
         links.append(_pipe("PL", prev, "R1", L=200.0, d=0.2))
+    elif name == "tank_limit":
+        # a tank that reaches its MAX level and one that reaches its MIN level within the run: the simulator closes the adjacent pipes
+        # through `_internal_status` (the user status stays Open); piecewise and default Hazen-Williams alternate
+        approx = ["piecewise", "default"][variant % 2]
+        opts = _opts(rng, demand_model="DD")
+        opts.update({"hydraulic_timestep": 1800, "pattern_timestep": 3600, "report_timestep": 1800, "pattern_start": 0, "duration": 5 * 1800})
+        nodes = [{"name": "R0", "type": "reservoir", "head": _r(rng, 68, 75, 1), "head_pattern": None},
+                 {"name": "T0", "type": "tank", "elevation": 50.0, "init_level": 4.7, "min_level": 0.0, "max_level": 5.0, "diameter": _r(rng, 2.5, 4, 1)},
+                 {"name": "T1", "type": "tank", "elevation": 60.0, "init_level": 0.5, "min_level": 0.3, "max_level": 6.0, "diameter": _r(rng, 2.5, 4, 1)},
+                 _junc("J0", 5.0, 0.002, "pat0"), _junc("J1", 8.0, _r(rng, 0.004, 0.008, 4))]
+        links = [_pipe("P1", "R0", "J0", L=200.0, d=0.25), _pipe("P2", "J0", "T0", L=100.0, d=0.2), _pipe("P2b", "T0", "J0", L=150.0, d=0.15, cv=True),
+                 _pipe("P3", "T1", "J1", L=100.0, d=0.2), _pipe("P4", "J0", "J1", L=800.0, d=0.1)]
     elif name == "cv_htol":
         # R0 -CV pipe-> J0 -pipe-> R1 with R1 within / just outside the head tolerance above R0: only the FLOW test can close the CV
         off = rng.choice([0.0001, 0.00005, 0.00014, 0.00016, 0.001, -0.0001, 0.00012])
